@@ -337,3 +337,52 @@ def subperm(p, idxs):
 @functools.lru_cache(maxsize=None)
 def all_perms_tuple(n):
     return tuple(perms(n))
+
+
+# ------------------------------------------------------------------ mesh pattern inside mesh pattern
+def sub_mesh(p, sh, idxs):
+    """Mesh pattern induced by the points at sorted indices idxs of (p, sh): a cell of the
+    induced pattern is shaded iff every cell of its region in the original is shaded and
+    the region contains no point of the original."""
+    idxs = sorted(idxs)
+    n, k = len(p), len(idxs)
+    q = std(tuple(p[i] for i in idxs))
+    vals = sorted(p[i] for i in idxs)
+    col_lo = [-1] + idxs  # region x: original indices strictly between col_lo[x] and col_hi[x]
+    col_hi = idxs + [n]
+    row_lo = [-1] + vals
+    row_hi = vals + [n]
+    new = set()
+    for x in range(k + 1):
+        for y in range(k + 1):
+            cells_ok = all(
+                (cx, cy) in sh
+                for cx in range(col_lo[x] + 1, col_hi[x] + 1)
+                for cy in range(row_lo[y] + 1, row_hi[y] + 1)
+            )
+            if not cells_ok:
+                continue
+            has_point = any(
+                row_lo[y] < p[i] < row_hi[y] for i in range(col_lo[x] + 1, col_hi[x])
+            )
+            if not has_point:
+                new.add((x, y))
+    return q, frozenset(new)
+
+
+def mesh_in_mesh_occ(a, ash, b, bsh):
+    """Occurrences of mesh pattern (a, ash) inside mesh pattern (b, bsh)."""
+    return [o for o in occ(a, b) if frozenset(ash) <= sub_mesh(b, bsh, o)[1]]
+
+
+def mesh_in_mesh(a, ash, b, bsh):
+    return bool(mesh_in_mesh_occ(a, ash, b, bsh))
+
+
+def minimal_mesh(patts):
+    """Minimal elements (w.r.t. mesh containment) of a collection of (perm, shading)."""
+    uniq = []
+    for m in patts:
+        if m not in uniq:
+            uniq.append(m)
+    return [m for m in uniq if not any(o != m and mesh_in_mesh(o[0], o[1], m[0], m[1]) for o in uniq)]
